@@ -64,6 +64,12 @@ def foldRes {σ α} (f : σ → α → Res σ) : σ → List α → Res σ
     | .err => .err
     | .panic => .panic
 
+/-- a loop body applied to an iterator item that may itself be an error (`line?`) -/
+def liftItem {σ α} (step : σ → α → Res σ) (s : σ) : Res α → Res σ
+  | .ok a => step s a
+  | .err => .err
+  | .panic => .panic
+
 /-- `mapM` with short-circuit. -/
 def mapRes {α β} (f : α → Res β) : List α → Res (List β)
   | [] => .ok []
@@ -229,19 +235,37 @@ def digitVal (c : Char) : Nat := c.toNat - '0'.toNat
 
 def digitsToNat (ds : Str) : Nat := ds.foldl (fun acc c => acc * 10 + digitVal c) 0
 
+def charDigit? (c : Char) : Option Nat := if '0' ≤ c ∧ c ≤ '9' then some (c.toNat - 48) else none
+
+/-- Horner parse of an all-digit string with accumulator; `none` on a non-digit -/
+def parseDigits : List Char → Nat → Option Nat
+  | [], acc => some acc
+  | c :: cs, acc =>
+    match charDigit? c with
+    | some d => parseDigits cs (acc * 10 + d)
+    | none => none
+
+def stripPlus : Str → Str
+  | '+' :: r => r
+  | s => s
+
 /-- `str::parse::<uN>` with `N = bits`: optional `+`, at least one ASCII digit, value `< 2^bits`. -/
 def parseNat? (bits : Nat) (s : Str) : Option Nat :=
-  let ds := match s with
-    | '+' :: r => r
-    | _ => s
-  if ds.isEmpty || !ds.all isDigit then none
-  else
-    let n := digitsToNat ds
-    if n < 2 ^ bits then some n else none
+  let body := stripPlus s
+  if body.isEmpty then none else
+  match parseDigits body 0 with
+  | some v => if v < 2 ^ bits then some v else none
+  | none => none
 
 def parseNat (bits : Nat) (s : Str) : Res Nat := Res.ofOpt (parseNat? bits s)
 
-def showNat (n : Nat) : Str := (Nat.repr n).toList
+def digitChar (d : Nat) : Char := Char.ofNat (48 + d)
+
+/-- decimal rendering (`Display` for unsigned integers) -/
+def showNat (n : Nat) : Str :=
+  if n < 10 then [digitChar n] else showNat (n / 10) ++ [digitChar (n % 10)]
+termination_by n
+decreasing_by omega
 
 /-! ## Hex -/
 
